@@ -217,6 +217,8 @@ func (k Keeper) IterateBondedValidatorsByPower(
 		// because it is applied at the end of an epoch, whereas that from the operator
 		// module is more recent.
 		val.Tokens = sdk.TokensFromConsensusPower(v.Power, sdk.DefaultPowerReduction)
+		// the tokens and shares are always balanced (the gov tally divides by the shares)
+		val.DelegatorShares = val.Tokens.ToLegacyDec()
 		// since the validator object was fetched from this module, we should set it to bonded.
 		val.Status = stakingtypes.Bonded
 		// items passed are:
@@ -228,17 +230,21 @@ func (k Keeper) IterateBondedValidatorsByPower(
 }
 
 // TotalBondedTokens is an implementation of the staking interface expected by the SDK's
-// gov module. This is not implemented intentionally, since the tokens securing this chain
-// are many and span across multiple chains and assets.
-func (k Keeper) TotalBondedTokens(sdk.Context) math.Int {
-	panic("unimplemented on this keeper")
+// gov module, which calls it from its EndBlocker when it tallies a proposal; a panic here
+// halts the chain as soon as any funded proposal reaches the end of its voting period.
+// The tokens securing this chain are many and span across multiple chains and assets, so
+// the figure is the virtual one that IterateBondedValidatorsByPower reports per validator:
+// the voting power (in USD) of the current validator set scaled by the power reduction.
+func (k Keeper) TotalBondedTokens(ctx sdk.Context) math.Int {
+	return k.GetLastTotalPower(ctx).Mul(sdk.DefaultPowerReduction)
 }
 
 // IterateDelegations is an implementation of the staking interface expected by the SDK's
-// gov module. See note above to understand why this is not implemented.
+// gov module (and by the fee deduction's reward fallback). There are no delegations in the
+// SDK's sense on this chain (see the note above), hence there is nothing to iterate over:
+// in a tally each validator votes with the whole of its voting power.
 func (k Keeper) IterateDelegations(
 	sdk.Context, sdk.AccAddress,
 	func(int64, stakingtypes.DelegationI) bool,
 ) {
-	panic("unimplemented on this keeper")
 }
